@@ -267,7 +267,19 @@ func witnesses() map[string]func(*core.Case) {
 			execListener(c, lc)
 		}
 	}
+	closeFail := func(after ...string) func(*core.Case) {
+		return func(c *core.Case) {
+			cf := &closeFailCase{Kind: "close-fail", Seed: 1, Carrier: "iq", Mode: "timeout", Before: 1, After: after, Reader: true}
+			c.Sample(cf)
+			execCloseFail(c, cf)
+		}
+	}
 	return map[string]func(*core.Case){
+		// a local Close times out waiting for its acknowledgement; the peer then
+		// closes the stream (accepted), yet the stream stays registered …
+		"ibb:close-fail:wrong-answer": closeFail("close", "data"),
+		// … and its reader is never woken
+		"ibb:eof:missing:peer-close-after-failed-local-close": closeFail("close"),
 		// an Expect is cancelled, then the stream it waited for is opened: the
 		// handler sends on the channel nobody receives from any more
 		"stall:ibb.handleOpen:chan-send": listener("expect-gave-up-then-open", "cancel"),
